@@ -420,7 +420,8 @@ class IO:
         fmt = op["fmt"]
         tr = sim.tracks
         d = self.fresh(f"restart-{fmt}")
-        out = {"resolved": {"fmt": fmt}, "tags": [fmt]}
+        pos_off = tr.segmentation is not None and tr.features.position_key not in tr.annotators.features
+        out = {"resolved": {"fmt": fmt}, "tags": [fmt] + (["pos_disabled"] if pos_off else [])}
         try:
             self._write(sim, fmt, d)
             if fmt.startswith("geff") and self._d7_predicate(tr):
